@@ -4,6 +4,7 @@
 # Confirms: existing tests pass with the change; demo passes without and fails with it. Then runs the property's check on it.
 NAME=$1; PROP=$2; PATCH=$(readlink -f $3); DEMO=$(readlink -f $4); NOTES=$(readlink -f $5)
 case "$DEMO" in /verif/seeded/*) T=/var/tmp/seedin.$$; rm -rf $T; mkdir -p $T; cp -r "$DEMO" $T/demo; cp "$NOTES" $T/notes.md; cp "$PATCH" $T/patch.diff; cp /verif/seeded/$NAME/meta.json $T/oldmeta.json 2>/dev/null; cp /verif/seeded/$NAME/patch.orig.diff $T/ 2>/dev/null; DEMO=$T/demo; NOTES=$T/notes.md; PATCH=$T/patch.diff;; esac
+/verif/check.sh C10 quick >/dev/null 2>&1 # rebuilds bin/fvcheck when a source is newer
 S=/var/tmp/seed.$$; rm -rf $S; mkdir -p $S/verif
 export GOFLAGS=-mod=mod GOPROXY=off GOSUMDB=off GOTOOLCHAIN=local; unset GOWORK
 rsync -a --exclude .git --exclude fc/fc /repo/ $S/repo/
